@@ -339,6 +339,37 @@ impl World {
                     self.note_conn(&r);
                 }
             }
+            "modify_sub" => {
+                // ModifySubscription that changes the priority only: the timing parameters the model
+                // knows are requested again
+                ctx.fault("subscription_priority_modified");
+                if let Some(k) = self.pick_sub(s) {
+                    let prio = u(s, "prio", 0) as u8;
+                    let req: SupportedMessage = ModifySubscriptionRequest {
+                        request_header: self.c.header(),
+                        subscription_id: self.subs[k].id,
+                        requested_publishing_interval: self.subs[k].pi_ms,
+                        requested_lifetime_count: self.subs[k].lt,
+                        requested_max_keep_alive_count: self.subs[k].ka,
+                        max_notifications_per_publish: 0,
+                        priority: prio,
+                    }
+                    .into();
+                    let r = self.c.call(req).await;
+                    let now = self.now_ms();
+                    if let Recv::Msg(_, SupportedMessage::ModifySubscriptionResponse(resp)) = &r {
+                        if resp.response_header.service_result.is_good() {
+                            self.subs[k].prio = prio;
+                            self.subs[k].pi_ms = resp.revised_publishing_interval;
+                            self.subs[k].ka = resp.revised_max_keep_alive_count;
+                            self.subs[k].lt = resp.revised_lifetime_count;
+                            self.subs[k].last_lifetime_reset_ms = now;
+                        }
+                    }
+                    ctx.log(&format!("modify_sub>{}", l2::recv_kind(&r)), &format!("prio={}", prio));
+                    self.note_conn(&r);
+                }
+            }
             "set_publishing" => {
                 ctx.fault("lifecycle_churn");
                 if let Some(k) = self.pick_sub(s) {
